@@ -40,7 +40,7 @@ func wasmKeyNames() []string {
 	return out
 }
 
-func b01(b bool) int {
+func wb01(b bool) int {
 	if b {
 		return 1
 	}
@@ -158,9 +158,9 @@ func wasmGen(g *h.Gen) {
 				}
 				ops = append(ops, fmt.Sprintf("key %s %d %d %d %d", h.Hex([]byte(n)), m&1, (m>>1)&1, (m>>2)&1, (m>>3)&1))
 			case 11, 12:
-				ops = append(ops, fmt.Sprintf("click %d %d %d %d %d %d", r.Range(-1, 80), r.Range(-1, 24), r.Intn(5), b01(r.Chance(20)), b01(r.Chance(20)), b01(r.Chance(20))))
+				ops = append(ops, fmt.Sprintf("click %d %d %d %d %d %d", r.Range(-1, 80), r.Range(-1, 24), r.Intn(5), wb01(r.Chance(20)), wb01(r.Chance(20)), wb01(r.Chance(20))))
 			case 13:
-				ops = append(ops, fmt.Sprintf("move %d %d %d %d %d %d", r.Range(0, 79), r.Range(0, 23), r.Intn(4), b01(r.Chance(20)), b01(r.Chance(20)), b01(r.Chance(20))))
+				ops = append(ops, fmt.Sprintf("move %d %d %d %d %d %d", r.Range(0, 79), r.Range(0, 23), r.Intn(4), wb01(r.Chance(20)), wb01(r.Chance(20)), wb01(r.Chance(20))))
 			case 14:
 				ops = append(ops, fmt.Sprintf("paste %d", r.Intn(2)))
 			case 15:
